@@ -17,6 +17,7 @@ EXTENDS HbCore
 Has(A, k) == \E x \in A : x[1] = k
 Get(A, k) == CHOOSE x \in A : x[1] = k
 SetV(x, v) == <<x[1], x[2], v, x[4], x[5], x[6]>>
+BumpV(v) == IF v = 0 THEN 0 ELSE v + 1000     \* the drivers' predicates add 1000 to real values (unit values stay 0)
 SetVV(x, v, vid) == <<x[1], x[2], v, vid, x[5], x[6]>>
 Ids(S) == S \ {0, -1}
 AllIds(A) == Ids({x[2] : x \in A} \cup {x[4] : x \in A})
@@ -162,7 +163,7 @@ AbsMapOp(e, A, A2, ph) ==
     [] e.op = "try_reserve" -> AR(A, {}, e.pn = "" /\ Len(e.r) = 3 /\ e.r[1] \in {0, 1, 2})
     [] e.op = "retain" ->
          LET K == SeqToSet(e.ks)
-             kept == {SetV(y, y[3] + 1000) : y \in {z \in A : z[1] \in K}}
+             kept == {SetV(y, BumpV(y[3])) : y \in {z \in A : z[1] \in K}}
              gone == {z \in A : z[1] \notin K}
          IN AR(kept, {z[2] : z \in gone} \cup {z[4] : z \in gone},
                \* predicate called exactly once per element, with the element's current contents
@@ -174,14 +175,14 @@ AbsMapOp(e, A, A2, ph) ==
              Vs == SeqToSet(e.r)                       \* classes the predicate was called on
              exhausted == e.j < 0 \/ Len(e.y) < e.j
              out == {z \in A : z[1] \in Vs /\ z[1] \in S}
-             stay == {z \in A : z[1] \notin Vs} \cup {SetV(z, z[3] + 1000) : z \in {w \in A : w[1] \in Vs /\ w[1] \notin S}}
+             stay == {z \in A : z[1] \notin Vs} \cup {SetV(z, BumpV(z[3])) : z \in {w \in A : w[1] \in Vs /\ w[1] \notin S}}
          IN AR(stay, {},
                /\ NoDupSeq(e.r)
                /\ Vs \subseteq {z[1] : z \in A}
                /\ (exhausted => Vs = {z[1] : z \in A})
                /\ Len(e.y) = Cardinality(out)
                /\ (e.j >= 0 => Len(e.y) <= e.j)
-               /\ SeqToSet(e.y) = {<<z[1], z[2], z[3] + 1000, z[4]>> : z \in out}
+               /\ SeqToSet(e.y) = {<<z[1], z[2], BumpV(z[3]), z[4]>> : z \in out}
                /\ e.pn = "")
     [] e.op = "drain" ->
          LET Y == SeqToSet(e.y)
